@@ -945,10 +945,10 @@ def run(ctx):
     nv0 = len(ctx.violations)
     rng = ctx.rng
     cases = [("corpus", c) for c in corpus_cases()]
-    for k in range(110 if quick else 1500):
+    for k in range(110 if quick else 2000):
         cases.append(("random", gen_case(rng)))
     for mode in MODES:          # weight on the corner the property singles out, in every mode
-        for k in range(8 if quick else 40):
+        for k in range(8 if quick else 50):
             cases.append(("random", gen_case(rng, mode=mode)))
     ss = small_scope_cases()
     if quick:
